@@ -59,9 +59,7 @@ func (m *omap) insert(k, v value) {
 	if m == nil {
 		panic("assignment to entry in nil map")
 	}
-	if frozenMaps != nil && frozenMaps[m] {
-		X.Violations = append(X.Violations, Violation{Msg: "write to caller-owned map"})
-	}
+	checkMapWrite(m)
 	if i := m.find(k); i >= 0 {
 		m.vals[i] = v
 		return
@@ -72,6 +70,7 @@ func (m *omap) insert(k, v value) {
 
 func (m *omap) delete(k value) {
 	if i := m.find(k); i >= 0 {
+		checkMapWrite(m)
 		m.keys = append(m.keys[:i:i], m.keys[i+1:]...)
 		m.vals = append(m.vals[:i:i], m.vals[i+1:]...)
 	}
